@@ -113,8 +113,12 @@ func (t *tracer) Subscribe() chan ITrace {
 func (t *tracer) SubscribeChannel(channel chan ITrace) chan ITrace {
 	okCh := make(chan struct{}, 1)
 	sub := subscription{channel: channel, ok: okCh}
-	t.subscription <- sub
-	<-okCh
+	select {
+	case t.subscription <- sub:
+		<-okCh
+	case <-t.done:
+		// the tracer has terminated: nothing will ever be delivered
+	}
 	return channel
 }
 
@@ -138,7 +142,11 @@ loop:
 }
 
 func (t *tracer) Send(trace ITrace) {
-	t.traces <- trace
+	select {
+	case t.traces <- trace:
+	case <-t.done:
+		// the tracer has terminated: a late sender must not block forever
+	}
 }
 
 func (t *tracer) RegisterSender() ISenderHandle {
